@@ -167,8 +167,9 @@ Lemma reply_changes_good c mem cm :
   Forall (chg_good c mem) (reply_changes cm) /\ modes_inclaim (reply_changes cm) = true.
 Proof.
   intros Hl. unfold reply_changes, flag_changes. split.
-  - rewrite !Forall_app. repeat split;
-      try (match goal with |- Forall _ (if ?b then _ else _) => destruct b; [by repeat constructor|constructor] end).
+  - assert (F : forall (b : bool) x, is_flag_letter x = true -> Forall (chg_good c mem) (if b then [MFlag true x] else [])).
+    { intros [] x Hx; by repeat constructor. }
+    rewrite !Forall_app. repeat split; try (by apply F).
     + destruct (cm_key cm); [constructor|by repeat constructor].
     + destruct (cm_limit cm =? 0) eqn:E; [constructor|]. repeat constructor. simpl.
       destruct Hl as [Hl|Hl]; [|done]. apply Z.eqb_neq in E. done.
